@@ -547,6 +547,10 @@ func (encryptor *QueryDataEncryptor) encryptUpdateValues(ctx context.Context, up
 	// and we need to take all of that into account. But we're interested only in the first table.
 	// If the updated table does not have a schema entry, there is nothing to encrypt here.
 	tables := GetTablesWithAliases(update.TableExprs)
+	if len(tables) == 0 {
+		// UPDATE (SELECT ...) AS t SET ...: no table that could have a schema entry (the database refuses the statement)
+		return values, false, nil
+	}
 	//tableName := tables[0].TableName.Name.String()
 	tableName := tables[0].TableName.Name.ValueForConfig()
 	schema := encryptor.schemaStore.GetTableSchema(tableName)
